@@ -73,6 +73,17 @@ Theorem C15_offered_contents_whole_stream : forall nkeys payload cs,
 Proof. exact handle_offered_contents_count. Qed.
 Print Assumptions C15_offered_contents_whole_stream.
 
+(* split items can be joined again, any number of times, and give the same stream: joining is a function of the items
+   (the harness checks the implementation's side of this on items that are sub-slices of a receive buffer) *)
+Theorem C15_rejoin : forall (l : list bytes) k,
+  Forall short l ->
+  match decode_contents (encode_contents l) with
+  | Ok l' => Nat.iter k (fun s => match decode_contents s with Ok x => encode_contents x | _ => s end) (encode_contents l') = encode_contents l
+  | _ => False
+  end.
+Proof. exact rejoin_split_stream. Qed.
+Print Assumptions C15_rejoin.
+
 (* premises are satisfiable by non-trivial values *)
 Example C15_nonvacuous :
   Forall short [[x01; x02]; []; [xff]] /\
